@@ -65,6 +65,7 @@ pub struct EvInfo {
     pub ts: u64,
     pub rank: u64,
     pub msg: Option<String>,
+    pub jclass: String,
 }
 
 pub struct GroupInfo {
@@ -96,6 +97,7 @@ pub struct World {
     pub counter: u64,
     pub cfg: MdkConfig,
     pub pending_name: HashMap<(String, String), String>, // (client, group) -> name of own pending commit
+    pub needles: BTreeMap<String, String>, // needle text -> what it is (C14 scan)
 }
 
 pub fn chain_push(parent: &str, e: &str) -> String {
@@ -140,6 +142,7 @@ impl World {
             counter: 0,
             cfg,
             pending_name: HashMap::new(),
+            needles: BTreeMap::new(),
         }
     }
 
@@ -217,6 +220,7 @@ impl World {
                 ts,
                 rank,
                 msg,
+                jclass: String::new(),
             },
         );
         self.ev_order.push(name.clone());
@@ -305,12 +309,69 @@ fn msg_pa(post: &Value, m: &str) -> u64 {
     post["msgs"].as_array().and_then(|a| a.iter().find(|x| x["id"] == m)).and_then(|x| x["pa"].as_u64()).unwrap_or(0)
 }
 
+pub fn needle_forms(bytes: &[u8]) -> Vec<String> {
+    let lower = hex::encode(bytes);
+    let upper = lower.to_uppercase();
+    let list = format!("{:?}", bytes);
+    vec![lower, upper, list.clone(), list.replace(", ", ",")]
+}
+
 /// Result of executing one action: one trace record (without index).
 pub struct StepOut {
     pub rec: Value,
 }
 
 impl World {
+    pub fn add_needle(&mut self, bytes: &[u8], what: &str) {
+        if bytes.len() < 8 { return; }
+        for f in needle_forms(bytes) {
+            self.needles.entry(f).or_insert_with(|| what.to_string());
+        }
+    }
+
+    /// Refresh the needle set (group ids, exporter secrets of every stored epoch, db keys) and scan `texts`.
+    pub fn scan_leaks(&mut self, c: &str, texts: &[String]) -> Vec<String> {
+        let gs: Vec<(String, GroupId)> = self.groups.iter().map(|(n, gi)| (n.clone(), gi.gid.clone())).collect();
+        for (gn, gid) in &gs {
+            self.add_needle(gid.as_slice(), &format!("mls_group_id({gn})"));
+        }
+        let nids: Vec<([u8; 32], String)> = self.nids.iter().map(|(k, v)| (*k, v.clone())).collect();
+        for (nid, nn) in nids {
+            self.add_needle(&nid, &format!("nostr_group_id({nn})"));
+        }
+        if let Some(cl) = self.clients.get(c) {
+            let key = cl.db_key;
+            let sql = cl.backend == "sql";
+            let mut found: Vec<(Vec<u8>, String)> = vec![];
+            if let Some(st) = cl.store.as_ref() {
+                for (gn, gid) in &gs {
+                    let cur = with_mdk!(st, m => m.get_group(gid)).ok().flatten().map(|g| g.epoch).unwrap_or(0);
+                    for ep in cur.saturating_sub(6)..=cur + 1 {
+                        use mdk_storage_traits::groups::GroupStorage as _;
+                        if let Ok(Some(s)) = with_mdk!(st, m => m.provider.storage().get_group_exporter_secret(gid, ep)) {
+                            found.push((s.secret.as_ref().to_vec(), format!("exporter_secret({gn},{ep})")));
+                        }
+                    }
+                }
+            }
+            for (b, w) in found {
+                self.add_needle(&b, &w);
+            }
+            if sql {
+                self.add_needle(&key, "db_key");
+            }
+        }
+        let mut hits: BTreeSet<String> = BTreeSet::new();
+        for t in texts {
+            for (n, what) in &self.needles {
+                if t.contains(n.as_str()) {
+                    hits.insert(format!("{what} in: {}", &t[..t.len().min(160)]));
+                }
+            }
+        }
+        hits.into_iter().collect()
+    }
+
     fn set_override(&self, ts: u64, rank: u64) {
         let lead = if rank == 0 { None } else { Some((rank.min(15) * 16) as u8) };
         mdk_core::verif_hooks::set_wrapper_override(Some((self.real_ts(ts), lead)));
@@ -428,7 +489,7 @@ impl World {
         self.clear_override();
         let (res, ename, welcomes) = match r {
             Err(_) => ("Panic".to_string(), None, vec![]),
-            Ok(Err(_e)) => ("Err".to_string(), None, vec![]),
+            Ok(Err(e)) => { crate::logcap::push(format!("ERRVAL {e} || {e:?}")); ("Err".to_string(), None, vec![]) }
             Ok(Ok(ugr)) => {
                 let name = self.register_event(ugr.evolution_event.clone(), "commit", g, c, &parent, ts, rank, None);
                 self.pending_name.insert((c.to_string(), g.to_string()), name.clone());
@@ -464,7 +525,7 @@ impl World {
         let pn = self.pending_name.get(&(c.to_string(), g.to_string())).cloned();
         let cl = &self.clients[c];
         let r = catch_unwind(AssertUnwindSafe(|| with_mdk!(cl.store.as_ref().unwrap(), m => m.merge_pending_commit(&gid))));
-        let res = match r { Err(_) => "Panic", Ok(Err(_)) => "Err", Ok(Ok(())) => "Ok" };
+        let res = match r { Err(_) => "Panic", Ok(Err(e)) => { crate::logcap::push(format!("ERRVAL {e} || {e:?}")); "Err" }, Ok(Ok(())) => "Ok" };
         let hint = pn.as_ref().map(|p| chain_push(&parent, p));
         let _ = self.chain_of(c, g, hint.as_deref());
         json!({"op":"Merge","c":c,"g":g,"res":res,"post":self.project(c,g)})
@@ -474,7 +535,7 @@ impl World {
         let gid = self.gid(g);
         let cl = &self.clients[c];
         let r = catch_unwind(AssertUnwindSafe(|| with_mdk!(cl.store.as_ref().unwrap(), m => m.clear_pending_commit(&gid))));
-        let res = match r { Err(_) => "Panic", Ok(Err(_)) => "Err", Ok(Ok(())) => "Ok" };
+        let res = match r { Err(_) => "Panic", Ok(Err(e)) => { crate::logcap::push(format!("ERRVAL {e} || {e:?}")); "Err" }, Ok(Ok(())) => "Ok" };
         json!({"op":"Clear","c":c,"g":g,"res":res,"post":self.project(c,g)})
     }
 
@@ -492,7 +553,7 @@ impl World {
         let mut idr = 0u64;
         let (res, ename) = match r {
             Err(_) => ("Panic", None),
-            Ok(Err(_)) => ("Err", None),
+            Ok(Err(e)) => { crate::logcap::push(format!("ERRVAL {e} || {e:?}")); ("Err", None) }
             Ok(Ok(ev)) => {
                 let mut rr = rumor.clone();
                 let rid = rr.id();
@@ -518,7 +579,7 @@ impl World {
         self.clear_override();
         let (res, ename) = match r {
             Err(_) => ("Panic", None),
-            Ok(Err(_)) => ("Err", None),
+            Ok(Err(e)) => { crate::logcap::push(format!("ERRVAL {e} || {e:?}")); ("Err", None) }
             Ok(Ok(ugr)) => {
                 let n = self.register_event(ugr.evolution_event, "prop", g, c, &parent, ts, rank, None);
                 ("Ok", Some(n))
@@ -540,7 +601,13 @@ impl World {
         let mut out: Option<String> = None;
         let res = match &r {
             Err(_) => "Panic".to_string(),
-            Ok(r) => res_class(r),
+            Ok(r) => {
+                match r {
+                    Ok(v) => crate::logcap::push(format!("RESVAL {v:?}")),
+                    Err(e) => crate::logcap::push(format!("ERRVAL {e} || {e:?}")),
+                }
+                res_class(r)
+            }
         };
         if let Ok(Ok(MessageProcessingResult::Proposal(ugr))) = r {
             let n = self.register_event(ugr.evolution_event, "commit", &g, c, &before, ots, orank, None);
@@ -548,7 +615,26 @@ impl World {
             out = Some(n);
         }
         // Name the chain we may have landed on.
-        let hint = if info.kind == "commit" { Some(chain_push(&info.parent, e)) } else { None };
+        // (a tampered copy of one's own commit makes the client merge its *pending* commit)
+        let hint = if info.kind == "commit" {
+            Some(chain_push(&info.parent, e))
+        } else if info.kind == "junk" {
+            // the client merged one of its own commits (possibly after a rollback restored an older pending one):
+            // name the chain only if exactly one own commit fits the epoch reached
+            let epoch_now = {
+                let gid = self.groups[&g].gid.clone();
+                let cl = &self.clients[c];
+                with_mdk!(cl.store.as_ref().unwrap(), m => m.load_mls_group(&gid)).ok().flatten().map(|mg| mg.epoch().as_u64()).unwrap_or(0)
+            };
+            let base = self.groups[&g].base;
+            let cands: Vec<String> = self.events.values()
+                .filter(|k| k.kind == "commit" && k.author == c && k.g == g && base + chain_len(&k.parent) + 1 == epoch_now
+                    && !self.chain_auth.contains_key(&chain_push(&k.parent, &k.name)))
+                .map(|k| chain_push(&k.parent, &k.name)).collect();
+            if cands.len() == 1 { Some(cands[0].clone()) } else { None }
+        } else {
+            None
+        };
         let _ = self.chain_of(c, &g, hint.as_deref());
         let cbs: Vec<Value> = {
             let log = self.clients[c].cb.0.lock().unwrap();
@@ -565,6 +651,87 @@ impl World {
         let post = self.project(c, &g);
         let now = info.msg.as_ref().map(|m| msg_pa(&post, m)).unwrap_or(0);
         json!({"op":"Deliver","c":c,"g":g,"e":e,"ts":ots,"rank":orank,"now":now,"res":res,"out":out.unwrap_or_default(),"rollbacks":cbs,"post":post})
+    }
+
+
+    /// Build a hostile / malformed wrapper event of class `class` for group `g` (using client `c`'s view of the
+    /// group: current nostr id and exporter secret) and publish it. Returns the trace record of its creation.
+    pub fn op_junk(&mut self, c: &str, g: &str, class: &str, ts: u64, rank: u64, base_name: &str) -> Value {
+        use mdk_storage_traits::groups::GroupStorage as _;
+        use nostr::nips::nip44;
+        let gid = self.gid(g);
+        let parent = self.chain_of(c, g, None);
+        let cl = &self.clients[c];
+        let st = cl.store.as_ref().unwrap();
+        let rec = with_mdk!(st, m => m.get_group(&gid)).ok().flatten();
+        let Some(rec) = rec else { return json!({"op":"Junk","c":c,"g":g,"class":class,"res":"Err","e":""}) };
+        // a real event to tamper with (if requested): we need the exporter secret of ITS epoch
+        let base = if base_name.is_empty() { None } else { self.events.get(base_name).cloned() };
+        let base_epoch = base.as_ref().map(|b| self.groups[g].base + chain_len(&b.parent)).unwrap_or(rec.epoch);
+        let secret = with_mdk!(st, m => m.provider.storage().get_group_exporter_secret(&gid, base_epoch)).ok().flatten();
+        let keys_from = |sec: &[u8; 32]| Keys::new(nostr::SecretKey::from_slice(sec).unwrap());
+        let real_ts = self.real_ts(ts);
+        let nid_hex = hex::encode(rec.nostr_group_id);
+        let rnd = |n: usize| -> Vec<u8> { (0..n).map(|_| rand::random::<u8>()).collect() };
+        let mut kind = Kind::MlsGroupMessage;
+        let mut tags: Vec<nostr::Tag> = vec![nostr::Tag::custom(nostr::TagKind::h(), [nid_hex.clone()])];
+        let mut created = real_ts;
+        let mut content = String::new();
+        let mut needs_secret = false;
+        match class {
+            "badkind" => { kind = Kind::MlsWelcome; }
+            "noh" => { tags = vec![]; }
+            "multih" => { tags.push(nostr::Tag::custom(nostr::TagKind::h(), [nid_hex.clone()])); }
+            "shorth" => { tags = vec![nostr::Tag::custom(nostr::TagKind::h(), ["abcdef0123".to_string()])]; }
+            "nonhexh" => { tags = vec![nostr::Tag::custom(nostr::TagKind::h(), ["z".repeat(64)])]; }
+            "stale" => { created = nostr::Timestamp::now().as_secs() - 60 * 86400; }
+            "future" => { created = nostr::Timestamp::now().as_secs() + 7200; }
+            "nogroup" => { tags = vec![nostr::Tag::custom(nostr::TagKind::h(), [hex::encode(rand::random::<[u8; 32]>())])]; }
+            "undecryptable" => {
+                let k = Keys::generate();
+                content = nip44::encrypt(k.secret_key(), &k.public_key, rnd(80), nip44::Version::default()).unwrap();
+            }
+            "mlsjunk" | "truncated" | "bitflip" => { needs_secret = true; }
+            _ => panic!("unknown junk class {class}"),
+        }
+        if needs_secret {
+            let Some(sec) = secret else { return json!({"op":"Junk","c":c,"g":g,"class":class,"res":"Err","e":""}) };
+            let k = keys_from(sec.secret.as_ref());
+            let payload: Vec<u8> = match (class, &base) {
+                ("mlsjunk", _) | (_, None) => rnd(120),
+                (_, Some(b)) => {
+                    let Ok(plain) = nip44::decrypt_to_bytes(k.secret_key(), &k.public_key, &b.event.content) else {
+                        return json!({"op":"Junk","c":c,"g":g,"class":class,"res":"Err","e":"","base":base_name});
+                    };
+                    if class == "truncated" { plain[..plain.len() / 2].to_vec() } else {
+                        let mut p = plain.clone();
+                        let i = p.len() - 1 - (rand::random::<usize>() % (p.len() / 4).max(1));
+                        p[i] ^= 0x40;
+                        p
+                    }
+                }
+            };
+            content = nip44::encrypt(k.secret_key(), &k.public_key, payload, nip44::Version::default()).unwrap();
+        } else if content.is_empty() {
+            // otherwise a copy of a valid content (or junk) — validation fails before it is looked at
+            content = base.as_ref().map(|b| b.event.content.clone()).unwrap_or_else(|| "AAAA".to_string());
+        }
+        let lead = if rank == 0 { None } else { Some((rank.min(15) * 16) as u8) };
+        let ev = loop {
+            let ek = Keys::generate();
+            let ev = EventBuilder::new(kind, content.clone())
+                .tags(tags.clone())
+                .custom_created_at(nostr::Timestamp::from_secs(created))
+                .sign_with_keys(&ek)
+                .expect("sign junk");
+            if lead.is_none_or(|b| ev.id.as_bytes()[0] == b) { break ev; }
+        };
+        let parent = if class == "bitflip" || class == "truncated" { base.as_ref().map(|b| b.parent.clone()).unwrap_or(parent) } else { parent };
+        let tagname = match class { "noh" | "multih" | "shorth" | "nonhexh" | "nogroup" => String::new(), _ => self.nid_name(&rec.nostr_group_id) };
+        let name = self.register_event(ev, "junk", g, "", &parent, ts, rank, None);
+        self.events.get_mut(&name).unwrap().jclass = class.to_string();
+        let blog = if class == "bitflip" || class == "truncated" { base_name } else { "" };
+        json!({"op":"Junk","c":c,"g":g,"class":class,"res":"Ok","e":name,"tag":tagname,"base":blog,"parent":chain_json(&parent),"ts":ts,"rank":rank,"now":0})
     }
 
     pub fn op_restart(&mut self, c: &str) -> Value {
@@ -593,7 +760,7 @@ impl World {
         let res: String = match what {
             "process" => {
                 let r = catch_unwind(AssertUnwindSafe(|| with_mdk!(st, m => m.process_welcome(&wrapper, &wi.rumor))));
-                match r { Err(_) => "Panic".into(), Ok(Err(_)) => "Err".into(), Ok(Ok(_)) => "Ok".into() }
+                match r { Err(_) => "Panic".into(), Ok(Err(e)) => { crate::logcap::push(format!("ERRVAL {e} || {e:?}")); "Err" }.into(), Ok(Ok(_)) => "Ok".into() }
             }
             "accept" | "decline" => {
                 let stored: Option<Welcome> = wi.rumor.id.and_then(|id| with_mdk!(st, m => m.get_welcome(&id)).ok().flatten());
@@ -605,7 +772,7 @@ impl World {
                         } else {
                             with_mdk!(st, m => m.decline_welcome(&wl))
                         }));
-                        match r { Err(_) => "Panic".into(), Ok(Err(_)) => "Err".into(), Ok(Ok(())) => "Ok".into() }
+                        match r { Err(_) => "Panic".into(), Ok(Err(e)) => { crate::logcap::push(format!("ERRVAL {e} || {e:?}")); "Err" }.into(), Ok(Ok(())) => "Ok".into() }
                     }
                 }
             }
